@@ -52,13 +52,15 @@ def run_property(pid, tier, seed, replay=None):
     distinct = set()
     samples = []
     if builds["harness"][0] and builds["modeldrv"][0]:
-        timeout = getattr(mod, "CASE_TIMEOUT", 60)
+        timeout = getattr(mod, "CASE_TIMEOUT", 600)
         impl_out = run_driver(IMPLDRV, cases, timeout=timeout)
         model_out = run_driver(MODELDRV, cases, timeout=max(timeout, 300))
         rel_out = None
         if tier == "thorough" and getattr(mod, "RELEASE_TOO", False):
             rel_out = run_driver(IMPLDRV_REL, cases, timeout=timeout)
         for idx, (c, m, i) in enumerate(zip(cases, model_out, impl_out)):
+            if i == "NOTRUN":
+                continue
             nm, ni = mod.normalize(c, m), mod.normalize(c, i)
             dist[mod.classify(c, i)] += 1
             if mod.nontrivial(c, i):
@@ -114,7 +116,7 @@ def run_property(pid, tier, seed, replay=None):
         # for an input on which the property itself fails
         found = None
         neigh = [c] + list(getattr(mod, "neighbours", lambda c: [])(c))[:200]
-        nout = run_driver(IMPLDRV, neigh, timeout=getattr(mod, "CASE_TIMEOUT", 60)) if neigh else []
+        nout = run_driver(IMPLDRV, neigh, timeout=getattr(mod, "CASE_TIMEOUT", 600)) if neigh else []
         for (nc, no) in zip(neigh, nout):
             f = mod.oracle(nc, no)
             if f and not is_known(nc, no, f):
